@@ -72,6 +72,12 @@ def _sampler(draw):
             "static": draw(st.booleans())}
 
 
+# PeriodicCondition: which variables its data function depends on ("all" = the periodic and the
+# non-periodic one, so f_left != f_right row by row) and the kind of the non-periodic sampler
+FN_OF = ["all", "all", "periodic", "nonperiodic"]
+NPS_KINDS = ["grid", "grid", "random", "data"]
+
+
 @st.composite
 def _cond(draw, n_models, n_params, types, allow_join, single_batch):
     typ = draw(st.sampled_from(types))
@@ -104,6 +110,12 @@ def _cond(draw, n_models, n_params, types, allow_join, single_batch):
         c["use_iter"] = draw(st.booleans())
     if typ in ("pinn", "mean", "ritz", "periodic"):
         c["track"] = True
+    if typ == "periodic":
+        # data functions also with a static non-periodic sampler (D19 is fixed): they are then
+        # pre-evaluated and stored as tensors per interval end, and moved by on_train_start
+        c["static_fn"] = True
+        c["fn_of"] = draw(st.sampled_from(FN_OF))
+        c["nps"] = draw(st.sampled_from(NPS_KINDS))
     return c
 
 
@@ -323,8 +335,9 @@ def _residual(c, mspec, out_name, pvars, integrand=False):
     return _named(names, body)
 
 
-def _data_fn(mspec):
-    invars = _in_vars(mspec["in"])
+def _data_fn(mspec, only=None):
+    """cos(3 * sum of the input variables); only=[names]: a function of these variables alone"""
+    invars = list(only) if only else _in_vars(mspec["in"])
     return _named(invars, lambda env: torch.cos(3.0 * _xcat(env, invars).sum(dim=1, keepdim=True)))
 
 
@@ -496,19 +509,32 @@ def _build_cond(w, c, tag, gen, validation):
     if typ == "periodic":
         X, T = tp.spaces.R1("x"), tp.spaces.R1("t")
         interval = tp.domains.Interval(X, 0.0, 1.0)
-        static = c["sampler"]["static"]
-        use_fn = c.get("data_fn") and not (static and mspec["in"] == "xt")   # D19 (C04/C14) avoided
+        nps_kind = c.get("nps", "grid")
+        static = c["sampler"]["static"] or nps_kind == "random"
+        # specs written before D19 (C04/C14) was fixed have no "static_fn" key: they keep their
+        # meaning (no data function next to a static non-periodic sampler)
+        use_fn = c.get("data_fn") and (c.get("static_fn") or not (static and mspec["in"] == "xt"))
         names = [out_name + "_left", out_name + "_right"] + list(pvars)
         if mspec["in"] == "xt":
             names.append("t")
         if use_fn:
             names += ["f_left", "f_right"]
         if mspec["in"] == "xt":
-            nps = tp.samplers.GridSampler(tp.domains.Interval(T, 0.0, 0.5), n_points=c["sampler"]["n"])
+            n_t = c["sampler"]["n"]
+            if nps_kind == "data":
+                nps = tp.samplers.DataSampler({"t": 0.5 * torch.rand((n_t, 1), generator=gen)})
+            elif nps_kind == "random":   # pre-sampled below -> deterministic afterwards
+                n_t = max(n_t, 2)
+                nps = tp.samplers.RandomUniformSampler(tp.domains.Interval(T, 0.0, 0.5), n_points=n_t)
+            else:
+                nps = tp.samplers.GridSampler(tp.domains.Interval(T, 0.0, 0.5), n_points=n_t)
             if static:
                 nps = nps.make_static()
+                if nps_kind != "grid":
+                    nps.sample_points()
             kw["non_periodic_sampler"] = nps
-            info["n_points"] = c["sampler"]["n"]
+            info["n_points"] = n_t
+            info["static_data"] = bool(static and use_fn)
 
         def body(env, out_name=out_name, pvars=pvars, use_fn=use_fn):
             r = env[out_name + "_left"] - _psum(env, pvars) * env[out_name + "_right"]
@@ -518,7 +544,8 @@ def _build_cond(w, c, tag, gen, validation):
                 r = r + env["f_left"] - 0.5 * env["f_right"]
             return r
         if use_fn:
-            kw["data_functions"] = {"f": _data_fn(mspec)}
+            fn_of = c.get("fn_of", "all") if mspec["in"] == "xt" else "all"
+            kw["data_functions"] = {"f": _data_fn(mspec, {"periodic": ["x"], "nonperiodic": ["t"]}.get(fn_of))}
         cond = PeriodicCondition(model, interval, _named(names, body), **nkw,
                                  weight=c["weight"], track_gradients=c.get("track", True), **kw)
         return cond, info
